@@ -246,6 +246,14 @@ func (e *Env) fieldSink() *ast.FuncDecl {
 			continue
 		}
 		ast.Inspect(fd.Body, func(n ast.Node) bool {
+			// p = &n.Comment (the address of the field is taken to store through it)
+			if u, ok := n.(*ast.UnaryExpr); ok && u.Op == token.AND {
+				if se, ok := ast.Unparen(u.X).(*ast.SelectorExpr); ok && se.Sel.Name == "Comment" {
+					if p, _ := namedOf(info.TypeOf(se.X)); p == "go/ast" {
+						found = fd
+					}
+				}
+			}
 			as, ok := n.(*ast.AssignStmt)
 			if !ok {
 				return true
@@ -269,6 +277,9 @@ func (e *Env) fieldSink() *ast.FuncDecl {
 			}
 			return true
 		})
+	}
+	if found == nil {
+		found = load.FuncDecl(pkg, "FileRestorer", "addCommentField")
 	}
 	fieldSinkCache[e] = found
 	return found
